@@ -192,7 +192,7 @@ class Parser:
                 self.expr()
             self.expect("]")
             return ("ty", "slice", [inner])
-        if self.at("impl") and self.at("Iterator", 1) and self.at("<", 2) and self.at("Item", 3) and self.at("=", 4):
+        if self.at("impl") and (self.at("Iterator", 1) or self.at("IntoIterator", 1)) and self.at("<", 2) and self.at("Item", 3) and self.at("=", 4):
             # `impl Iterator<Item = T>` consumed once: the list of the items it yields
             for _ in range(5):
                 self.next()
@@ -1016,6 +1016,14 @@ def is_list(ty):
     return ty is not None and ty[0] == "ty" and ty[1] in ("slice", "Vec")
 
 
+def is_deque(ty):
+    return ty is not None and ty[0] == "ty" and ty[1] == "VecDeque" and len(ty[2]) == 1 and is_int(ty[2][0])
+
+
+def is_intset(ty):
+    return ty is not None and ty[0] == "ty" and ty[1] == "HashSet" and len(ty[2]) == 1 and is_int(ty[2][0])
+
+
 def is_str(ty):
     return ty is not None and ty[0] == "ty" and ty[1] in ("str", "String")
 
@@ -1055,6 +1063,8 @@ class Ctx:
             return None
         if ty[0] == "tup":
             return ("tup", [self.norm(x) for x in ty[1]])
+        if ty[1] in self.cfg.get("tparams", {}) and not ty[2]:
+            return self.cfg["tparams"][ty[1]]            # the instance of a generic type that the module translates
         for sr in self.sources:
             if ty[1] in sr.aliases and not ty[2]:
                 return self.norm(sr.aliases[ty[1]])
@@ -1063,7 +1073,7 @@ class Ctx:
     def struct(self, name):
         for s in self.sources:
             if name in s.structs:
-                if not any(sr.aliases for sr in self.sources):
+                if not any(sr.aliases for sr in self.sources) and not self.cfg.get("tparams"):
                     return s.structs[name]
                 return [(f, self.norm(t)) for f, t in s.structs[name]]
         return None
@@ -1071,7 +1081,7 @@ class Ctx:
     def enum(self, name):
         for s in self.sources:
             if name in s.enums:
-                if not any(sr.aliases for sr in self.sources):
+                if not any(sr.aliases for sr in self.sources) and not self.cfg.get("tparams"):
                     return s.enums[name]
                 return [(v, [self.norm(t) for t in tys]) for v, tys in s.enums[name]]
         return None
@@ -1112,6 +1122,9 @@ class Ctx:
             return "(list N)"
         if name == "Ordering":
             return "comparison"
+        if name in ("HashSet", "VecDeque") and len(args) == 1 and is_int(args[0]):
+            # a set of integers that is never iterated: a duplicate-free list; a double-ended queue: a list
+            return "(list %s)" % self.coq_ty(args[0])
         if name in ("HashMap", "HashSet", "VecDeque", "BTreeMap", "BTreeSet"):
             return "unit"        # opaque: a function that touches a value of this type is outside the subset
         if self.struct(name) is not None or self.enum(name) is not None:
@@ -1128,6 +1141,8 @@ class Ctx:
             return ("tup", [self.resolve_self(x, impl) for x in ty[1]])
         if ty[1] == "Self":
             return T(impl)
+        if ty[1] in self.cfg.get("tparams", {}) and not ty[2]:
+            return self.cfg["tparams"][ty[1]]
         for sr in self.sources:
             if ty[1] in sr.aliases and not ty[2]:
                 return self.resolve_self(sr.aliases[ty[1]], impl)
@@ -1248,7 +1263,8 @@ def let_bound(e):
 # method-call nodes (by identity) whose name is that of a &mut self method of the module but whose receiver
 # type is known to have a translated method of that name taking &self (e.g. Automaton::next vs Iterator::next)
 NONMUT_NODES = set()
-BASE_MUTATING = ("push", "extend_from_slice", "resize", "truncate", "sort_by_key", "retain", "sort_unstable", "sort")
+BASE_MUTATING = ("push", "extend_from_slice", "resize", "truncate", "sort_by_key", "retain", "sort_unstable", "sort",
+                 "push_back", "pop_front")
 MUTATING_METHODS = set(BASE_MUTATING)          # plus the &mut self methods of the translated set (added per module)
 
 
@@ -1508,6 +1524,18 @@ class FnTranslator:
                     return rt[2][0]
                 if is_str(rt) and m == "chars":
                     return T("slice", T("char"))
+                if is_deque(rt):
+                    if m == "pop_front":
+                        return T("Option", rt[2][0])
+                    if m == "is_empty":
+                        return T("bool")
+                    if m == "len":
+                        return T("usize")
+                if is_intset(rt):
+                    if m in ("insert", "contains"):
+                        return T("bool")
+                    if m == "len":
+                        return T("usize")
                 if rt[1] == "char" and m == "to_digit":
                     return T("Option", T("u32"))
                 if rt[1] == "char" and m == "is_ascii_hexdigit":
@@ -1816,6 +1844,10 @@ class FnTranslator:
                 return "[]"
             if len(p) == 2 and p == ["Vec", "with_capacity"] and len(args) == 1:
                 return "[]"
+            if len(p) == 2 and p[0] in ("VecDeque", "HashSet") and p[1] == "new" and not args:
+                return "[]"
+            if len(p) == 2 and p[0] in ("VecDeque", "HashSet") and p[1] == "with_capacity" and len(args) == 1:
+                return "[]"
             if len(p) == 1 and self.c.struct(name) is not None:
                 return "(%s_mk%s)" % (name, "".join(" " + a for a in args))
             if ev:
@@ -1834,6 +1866,19 @@ class FnTranslator:
                 return None if r0 is None else "(list_%s_opt %s)" % (m, r0)
             if m == "chars" and is_str(rt):
                 return self.pure(e[1], env)
+            if (is_deque(rt) or is_intset(rt)) and m in ("is_empty", "len") and not e[3]:
+                r0 = self.pure(e[1], env)
+                if r0 is None:
+                    return None
+                return "(length %s)" % r0 if m == "len" else "match %s with [] => true | _ :: _ => false end" % r0
+            if is_intset(rt) and m == "contains" and len(e[3]) == 1:
+                r0 = self.pure(e[1], env)
+                a0 = self.pure(e[3][0], env, rt[2][0])
+                if r0 is None or a0 is None:
+                    return None
+                return "(existsb (%s %s) %s)" % ("Nat.eqb" if is_nat(rt[2][0]) else "N.eqb", a0, r0)
+            if (is_deque(rt) and m in ("push_back", "pop_front")) or (is_intset(rt) and m == "insert"):
+                return None
             if m == "enumerate" and not e[3] and is_list(rt):
                 r0 = self.pure(e[1], env)
                 return None if r0 is None else "(enumerate %s)" % r0
@@ -2257,6 +2302,31 @@ class FnTranslator:
                         return "do %s <- (match %s with\n| Some %s =>\n%s\n| None => Some None\nend);\n%s" % (t, r0, ps, body, k(t))
                     raise Unsupported("closure argument of .%s" % m)
                 return self.tr(e[1], env, with_recv_cl)
+            if is_deque(rt) and m == "push_back" and len(e[3]) == 1:
+                def after_pb(v):
+                    recv = self.pure(e[1], env)
+                    if recv is None:
+                        raise Unsupported("push_back on a computed place")
+                    root, term = self.place_update(e[1], "(%s ++ [%s])" % (recv, v), env)
+                    return "let %s := %s in\n%s" % (var(root), term, k("tt"))
+                return self.tr(e[3][0], env, after_pb, rt[2][0])
+            if is_deque(rt) and m == "pop_front" and not e[3]:
+                recv = self.pure(e[1], env)
+                if recv is None:
+                    raise Unsupported("pop_front on a computed place")
+                q, o = self.c.fresh("q"), self.c.fresh("o")
+                root, term = self.place_update(e[1], q, env)
+                return "let '(%s, %s) := deque_pop_front %s in\nlet %s := %s in\n%s" % (q, o, recv, var(root), term, k(o))
+            if is_intset(rt) and m == "insert" and len(e[3]) == 1:
+                def after_ins(v):
+                    recv = self.pure(e[1], env)
+                    if recv is None:
+                        raise Unsupported("insert on a computed place")
+                    q, o = self.c.fresh("q"), self.c.fresh("o")
+                    root, term = self.place_update(e[1], q, env)
+                    return "let '(%s, %s) := set_insert %s %s %s in\nlet %s := %s in\n%s" % (
+                        q, o, "Nat.eqb" if is_nat(rt[2][0]) else "N.eqb", recv, v, var(root), term, k(o))
+                return self.tr(e[3][0], env, after_ins, rt[2][0])
             if is_list(rt) and m in ("resize", "truncate"):
                 def after_rs(vals):
                     recv = self.pure(e[1], env)
@@ -2427,8 +2497,9 @@ class FnTranslator:
                 bind = "do %s <- %s;\n" % (t, call)
             else:
                 t2 = self.c.fresh()
+                pr = self.c.fresh("p")
                 newv, res = t, t2
-                bind = "do '(%s, %s) <- %s;\n" % (t, t2, call)
+                bind = "do %s <- %s;\nlet '(%s, %s) := %s in\n" % (pr, call, t, t2, pr)
             root, term = self.place_update(recv, newv, env)
             return "%slet %s := %s in\n%s" % (bind, var(root), term, k(res))
         return self.tr_list(e[3], env, with_args, ptys)
@@ -3093,6 +3164,13 @@ MODULES = {
         "consts": [],
         "functions": [("FastSet", None, f) for f in ("new", "card", "contains", "insert", "remove", "reset", "iter")]
                      + [("FastSetIterator", "Iterator", "next")],
+    },
+    "BfsQueueGen": {
+        "files": ["bfs_queues.rs"],
+        "types": ["BfsQueue"],
+        "tparams": {"T": ("ty", "usize", [])},        # the instance BfsQueue<usize> (Automaton::remove_unreachable_states)
+        "consts": [],
+        "functions": [("BfsQueue", None, f) for f in ("new", "with_capacity", "push", "push_all", "is_empty", "len", "pop")],
     },
     "PartitionGen": {
         "files": ["character_sets.rs", "smt_strings.rs", "errors.rs"],
